@@ -133,6 +133,13 @@ CHECKS = {
         technique="Lean 4 theorems (lattice half-cell lemma, telescoping) + model-pipeline correspondence + independent-metric predicates",
         ref="DESIGN.md §5 C01",
     ),
+    "C09": dict(
+        category="proof",
+        text="Totality face of the models. Proved here: the dispatch of locate_droplets / locate_droplets_in_mask raises exactly the documented errors (TypeError for a non-ScalarField, ValueError for modes in 1-D, NotImplementedError/ValueError for unsupported grids) and returns otherwise (locate_documented_errors, locate_total); the cylindrical branches return for every cluster configuration, periodic or not, spanning or not, and give an empty result when no cluster touches the axis (cyl_total, cyl_none_on_axis). Re-exported so that breaking them breaks C09: rendering finite (C03), tracking total incl. empty frames (C06), class table incl. the documented error (C19), feasible fit start (C04), length-scale tracker total (C14). The outcome class of the real entry points is compared with the model on a fuzzed stream (9 field kinds x all grid families from 1 cell up x all option combinations incl. refine with fitted/automatic levels), malformed inputs, random cylindrical masks, rendering of all classes, tracking of random time courses; every returned parameter must be finite. Exposed D5, D16 (empty fit region), D17 (zero intensity range) - all fixed in /repo - besides D3, D4, D6, D11 found with other properties.",
+        note="Trusted: Lean kernel; propext/Classical.choice/Quot.sound; exceptions raised inside scipy/numba/py-pde for reasons other than the modelled preconditions are observed by the fuzz stream, not excluded by proof; finiteness of fitted parameters is observed, not proved.",
+        technique="Lean 4 totality theorems over hand-written models + outcome-class correspondence on a fuzzed stream",
+        ref="DESIGN.md §5 C09",
+    ),
 }
 
 NOT_APPLICABLE = {}
